@@ -192,8 +192,129 @@ def r3_declared_return(ctx):
               "compile_function no longer checks a declared return type against the body's type")
 
 
+def r5_narrowing_belongs_to_its_binding(ctx):
+    R = "R-C01-5"
+    ctx.rule(R, "a narrowing is applied only to the binding it was recorded for: in scopes::lookup_variable every read of `narrowings.variables` is made "
+                "on a scope taken from the part of the scope stack that starts at the scope holding the binding (a range / index whose lower bound "
+                "derives from the binding search) — a narrowing of an outer variable must not retype an inner variable that shadows its name")
+    F = ctx.facts
+    b = F.body("quiver_compiler::compiler::scopes::lookup_variable")
+    fl = Flow(b, through_named=True)
+    TC = ("Iterator::next", "Iterator::rev", "slice::iter", "IntoIterator::into_iter", "Index::index", "Deref::deref", "Iterator::enumerate", "Iterator::skip",
+          "slice::get", "Option::unwrap", "Try::branch", "Iterator::take", "Iterator::zip")
+    # the binding search: the call whose closure reads `bindings`
+    search = []
+    for bi, t in b.calls():
+        for a in t["args"]:
+            pl = op_place(a)
+            if not pl:
+                continue
+            for _b2, _s2, st in b.stmts():
+                if st["k"] == "assign" and st["p"]["l"] == pl["l"] and st["rv"].get("closure"):
+                    cb = F.body(st["rv"]["closure"])
+                    if any(e[0] == "f" and e[1] == "bindings" for _x, _y, s3 in cb.stmts() if s3["k"] == "assign"
+                           for pp in ([s3["rv"].get("p")] if s3["rv"].get("p") else []) for e in pp["pr"]):
+                        search.append(t["dest"]["l"])
+    for bi, si, st in b.stmts():
+        if st["k"] == "assign" and st["rv"]["k"] in ("ref", "use"):
+            pp = st["rv"].get("p") or op_place(st["rv"].get("op") or {})
+            if pp and any(e[0] == "f" and e[1] == "bindings" for e in pp["pr"]):
+                for cb_, ct in b.calls():
+                    if (ct.get("callee") or "").endswith("HashMap::get") and op_place(ct["args"][0]) and st["p"]["l"] in fl.backward({op_place(ct["args"][0])["l"]}):
+                        search.append(ct["dest"]["l"])
+    if not search:
+        raise CheckError("%s: the binding search of lookup_variable was not found" % R)
+    n = 0
+    for bi, t in b.calls():
+        if not (t.get("callee") or "").endswith("HashMap::get") or not t["args"] or not op_place(t["args"][0]):
+            continue
+        rp = op_place(t["args"][0])
+        fields = fl.slice_reads(rp["l"])[0]
+        if not any(f == "variables" for _o, f in fields) or not any(f == "narrowings" for _o, f in fields):
+            continue
+        n += 1
+        back = fl.backward({rp["l"]}, through_calls=TC)
+        bounded = False
+        for b2, s2, st in b.stmts():
+            if st["k"] == "assign" and st["p"]["l"] in back and st["rv"]["k"] == "agg" and (st["rv"].get("adt") or "").split("::")[-1] in ("RangeFrom", "Range", "RangeInclusive"):
+                lo = op_place(st["rv"]["ops"][0]) if st["rv"]["ops"] else None
+                if lo and (fl.backward({lo["l"]}, through_calls=("Try::branch", "Option::unwrap", "Option::map", "Option::expect")) & set(search)):
+                    bounded = True
+        # or an explicit comparison of the scanned index with the binding's index guards the read
+        for b2, s2, st in b.stmts():
+            if st["k"] == "assign" and st["rv"]["k"] == "bin" and st["rv"]["op"] in ("Ge", "Gt", "Le", "Lt") and b.dominates(b2, bi):
+                sides = [fl.backward({op_place(o)["l"]}, through_calls=("Try::branch", "Option::unwrap")) if op_place(o) else set() for o in (st["rv"]["l"], st["rv"]["r"])]
+                if any(sd & set(search) for sd in sides):
+                    bounded = True
+        ctx.check(bounded, R, "%s|narrowing-read#%d" % (b.key, n - 1), "the scanned scopes start at the binding's scope (range lower bound from the binding search)",
+                  "lookup_variable reads narrowings from scopes OUTSIDE the binding's own (no range / comparison tied to the index of the scope that holds "
+                  "the binding): a narrowing recorded for an outer variable retypes an inner variable with the same name — runtime checks are dropped and "
+                  "an ill-typed value reaches a builtin", b.loc(bi))
+    # ... or inside a closure handed to an iterator adaptor: then the ITERATOR must be over the bounded part of the stack
+    def bounded_range_in(back):
+        for b2, s2, st in b.stmts():
+            if st["k"] == "assign" and st["p"]["l"] in back and st["rv"]["k"] == "agg" and (st["rv"].get("adt") or "").split("::")[-1] in ("RangeFrom", "Range", "RangeInclusive"):
+                lo = op_place(st["rv"]["ops"][0]) if st["rv"]["ops"] else None
+                if lo and (fl.backward({lo["l"]}, through_calls=("Try::branch", "Option::unwrap", "Option::map", "Option::expect")) & set(search)):
+                    return True
+        return False
+    for ck in F.closures_of(b.key):
+        cb = F.body(ck)
+        cfl = Flow(cb, through_named=True)
+        reads = []
+        for bi, t in cb.calls():
+            if (t.get("callee") or "").endswith("HashMap::get") and t["args"] and op_place(t["args"][0]):
+                fields = cfl.slice_reads(op_place(t["args"][0])["l"])[0]
+                if any(f == "variables" for _o, f in fields) and any(f == "narrowings" for _o, f in fields):
+                    reads.append(bi)
+        if not reads:
+            continue
+        for bi2, si2, st in b.stmts():
+            if st["k"] == "assign" and st["rv"].get("closure") == ck:
+                for b3, t3 in b.calls():
+                    if any((op_place(a) or {}).get("l") == st["p"]["l"] for a in t3["args"]) and t3["args"] and op_place(t3["args"][0]):
+                        n += 1
+                        back = fl.backward({op_place(t3["args"][0])["l"]}, through_calls=TC)
+                        ctx.check(bounded_range_in(back), R, "%s|narrowing-read#%d" % (b.key, n - 1),
+                                  "the iterator whose closure reads the narrowings runs over the part of the stack starting at the binding's scope",
+                                  "lookup_variable reads narrowings from scopes OUTSIDE the binding's own (the iterator handed to %s is not bounded by the "
+                                  "index of the scope that holds the binding): a narrowing recorded for an outer variable retypes an inner variable with the "
+                                  "same name" % (t3.get("callee") or "").split("::")[-1], b.loc(b3))
+    ctx.floor(R, "narrowing reads in lookup_variable", n, 1)
+
+
+def r4_check_elision_and_unions(ctx):
+    """what the type checker PROMISES the run time: a type assertion's runtime check is dropped only when the static type is compatible with the
+    asserted type, and a union type never loses a variant to coverage pruning — shared with R-C09-5"""
+    from rules import c09
+    before = len(ctx.obs)
+    c09.r5_unions_and_check_elision(ctx)
+    for o in ctx.obs[before:]:
+        o["rule"] = "R-C01-4"
+    if "R-C09-5" in ctx.rules:
+        ctx.rules["R-C01-4"] = ctx.rules.pop("R-C09-5")
+
+
+def r6_static_type_matches_contents(ctx):
+    """the typing pass and the emitting pass of tuple literals with spreads agree on which source supplies a named field (rightmost) — shared with
+    R-C02-5 (b)"""
+    from rules import c02
+    before = len(ctx.obs)
+    c02.r5_written_order(ctx)
+    kept = []
+    for o in ctx.obs[before:]:
+        if "build_field_sources_for_variant" in o["site"]:
+            o = dict(o)
+            o["rule"] = "R-C01-6"
+            kept.append(o)
+    ctx.obs[before:] = kept
+    if "R-C02-5" in ctx.rules:
+        ctx.rules["R-C01-6"] = ctx.rules.pop("R-C02-5")
+    ctx.floors[:] = [f for f in ctx.floors if f["rule"] != "R-C02-5"]
+
+
 def run(ctx):
-    ctx.run_rules([r1_guarded_application, r2_unify_polarity, r3_declared_return])
+    ctx.run_rules([r1_guarded_application, r2_unify_polarity, r3_declared_return, r4_check_elision_and_unions, r5_narrowing_belongs_to_its_binding, r6_static_type_matches_contents])
     ctx.note("NOT decided: soundness of narrowing, complement narrowing carve-outs, return-type dispatch tables, pattern analysis — properties of the "
              "type checker's output over all programs; correctness of the judgments themselves is C09")
     return (
